@@ -3260,13 +3260,14 @@ def t2_units(ctx: fw.Ctx, which: list[str], name: str = "T2:units") -> None:
 ALL_T1 = ["Brackets", "FmtTables", "LexTables", "Ladder"]
 LEAN_OBLIGATIONS: dict[str, dict] = {
     "C06": dict(
-        modules=["Tumfl.Props.C06"],
-        obligations=["Tumfl.Props.C06_quoted", "Tumfl.Props.C06_long", "Tumfl.Props.C06_forms", "Tumfl.Props.C06_wrapped", "Tumfl.Inst.escTable_ok"],
+        modules=["Tumfl.Props.C06", "Tumfl.Props.Final"],
+        obligations=["Tumfl.Props.C06_quoted", "Tumfl.Props.C06_long", "Tumfl.Props.C06_forms", "Tumfl.Props.C06_wrapped", "Tumfl.Props.C08_format_tree", "Tumfl.Inst.escTable_ok"],
         extractors=["FmtTables", "Brackets"],
         tie_names=["T1:FmtTables (ESCAPE_CHARACTERS re-extracted; EscTableOK re-decided)", "T2:format (visit_String and every layout pass, stage by stage)",
                    "T2:units (_find_level, __escape_positions, __get_newline_pos, _string_ident, visit_String: every input up to a length over small alphabets)"],
         partial_hypotheses=["both written forms and the `\\z` wrapping are proved to read back to the value with the reference readers; that the surrounding text does not "
-                            "interfere is C02_boundary (a literal is read whatever follows it); composition into one statement about the final text: pending"],
+                            "interfere is C02_boundary (a literal is read whatever follows it); in context: C08_format_tree - for ANY printable tree (built by hand) the formatted text "
+                            "is a valid chunk whose reference tree is the tree itself, so every String node reads back as its value in whatever position it stands"],
     ),
 }
 LEAN_OBLIGATIONS.update({
@@ -3400,7 +3401,7 @@ LEAN_OBLIGATIONS.update({
 LAYOUT_OBL = ["Tumfl.Props.C08_remove_separators", "Tumfl.Props.C08_add_spacing", "Tumfl.Props.C08_remove_orphaned", "Tumfl.Props.C08_resolve_tokens",
               "Tumfl.Props.C08_join", "Tumfl.Props.C08_indent_brackets", "Tumfl.Props.C08_string_wrap", "Tumfl.Props.C08_wrap_progress", "Tumfl.Props.C02_boundary",
               "Tumfl.Props.C08_comment_wf", "Tumfl.Props.C08_comment_text"]
-PIECE_OBL = ["Tumfl.Props.C01_default_style", "Tumfl.Props.C02_minified_style", "Tumfl.Inst.defaultStyle_repr_ok", "Tumfl.Inst.minifiedStyle_repr_ok", "Tumfl.Props.C01_same_program", "Tumfl.Props.C02_same_program_final", "Tumfl.Props.C01_same_program_emit", "Tumfl.Props.EmitI_eq_emit_parsed", "Tumfl.Props.C02_same_program", "Tumfl.Props.C02_same_program_nocomments", "Tumfl.Props.Format_lex", "Tumfl.Props.Format_lex_exact", "Tumfl.Props.Format_comments",
+PIECE_OBL = ["Tumfl.Props.C08_format_tree", "Tumfl.Props.C01_default_style", "Tumfl.Props.C02_minified_style", "Tumfl.Inst.defaultStyle_repr_ok", "Tumfl.Inst.minifiedStyle_repr_ok", "Tumfl.Props.C01_same_program", "Tumfl.Props.C02_same_program_final", "Tumfl.Props.C01_same_program_emit", "Tumfl.Props.EmitI_eq_emit_parsed", "Tumfl.Props.C02_same_program", "Tumfl.Props.C02_same_program_nocomments", "Tumfl.Props.Format_lex", "Tumfl.Props.Format_lex_exact", "Tumfl.Props.Format_comments",
              "Tumfl.Props.Parse_numsCanon", "Tumfl.Props.Format_cex_semicolon", "Tumfl.Props.Format_cex_trailing_comma", "Tumfl.Props.Same_program", "Tumfl.Props.Same_tokens", "Tumfl.Props.Same_normS_eq", "Tumfl.Props.Same_normS_strength", "Tumfl.Props.Parse_printable", "Tumfl.Props.C10_parse_sound", "Tumfl.Props.C03_parse_complete", "Tumfl.Props.Print_sim", "Tumfl.Props.Print_sim_parseToks", "Tumfl.Props.Print_readings", "Tumfl.Props.C11_roundtrip", "Tumfl.Props.C11_emit_is_par", "Tumfl.Props.C11_emit_roundtrip", "Tumfl.Props.C11_minified", "Tumfl.Inst.brackets_sound_all",
              "Tumfl.Props.C06_quoted", "Tumfl.Props.C06_long", "Tumfl.Props.C06_forms", "Tumfl.Props.C06_wrapped", "Tumfl.Props.C07_partial", "Tumfl.Props.C13_emit_on"]
 FORMAT_MODULES = ["Tumfl.Props.Final", "Tumfl.Props.Format", "Tumfl.Props.Same", "Tumfl.Props.Parse", "Tumfl.Props.Print", "Tumfl.Props.C08", "Tumfl.Props.C11", "Tumfl.Props.C06", "Tumfl.Props.C07", "Tumfl.Props.C13"]
